@@ -209,10 +209,38 @@ def r18_3(ctx):
     return r
 
 
+def r18_5(ctx):
+    r = Rule("R18.5", "the written defaults are looked up, never consumed: the props builder takes no mutable reference to the list of defaults",
+             "a default that is moved out of the list (swap_remove / remove / drain / pop) is gone when a second declaration of the same key asks for it")
+    from ..cfg import calls, callee_name
+    pb = C.role_or_fail(ctx, r, "props_builder")
+    if not pb:
+        return r
+    dty = next((t for t in pb["inputs"] if "PropName" in t and "Expr" in t and "Vec<" in t), None)
+    if dty is None:
+        r.ob("the props builder receives the list of defaults", None, C.mloc(pb, pb), "no parameter of type Vec<(PropName, Expr)> (different strategy)")
+        return r
+    m = re.search(r"alloc::vec::Vec<\(.*\)>", dty)
+    vec_ty = re.sub(r"'[a-z_0-9]+", "'_", m.group(0)) if m else dty
+    mb = C.mir_of(ctx, pb)
+    n = 0
+    for b in ctx.facts.mir_family(mb):
+        r.saw(b["path"])
+        for i, t in calls(b):
+            for ty in t.get("arg_tys", []):
+                tyn = re.sub(r"'[a-z_0-9]+", "'_", ty)
+                if tyn.startswith("&mut ") and (tyn[5:] == vec_ty or tyn[5:] == "core::option::Option<%s>" % vec_ty):
+                    n += 1
+                    r.ob("%s: %s takes the defaults by mutable reference" % (b["path"], callee_name(t).split("::")[-1]), False, C.mloc(b, t),
+                         "`%s` can remove or reorder the written defaults while props are still being emitted" % callee_name(t).split("::")[-1])
+    r.ob("the defaults are only read in the props builder", n == 0, C.mloc(pb, pb), "no call receives `&mut %s`" % vec_ty[:80] if n == 0 else "%d mutating call(s)" % n)
+    return r
+
+
 def rules(ctx):
     from ..engine import only
     from . import c16
-    return [__import__('vjsx.rules.c16', fromlist=['x']).r16_9, __import__('vjsx.rules.c10', fromlist=['x']).field_ratchet('defaults must not depend on what was resolved before'), r18_1, r18_2, r18_3, r18_4,
+    return [__import__('vjsx.rules.c16', fromlist=['x']).r16_9, __import__('vjsx.rules.c10', fromlist=['x']).field_ratchet('defaults must not depend on what was resolved before'), r18_1, r18_2, r18_3, r18_4, r18_5,
             only(c16.r16_1, lambda k: k.startswith("props_extractor"), "the written default is taken the same way for every form of the setup function / its first parameter")]
 
 
@@ -222,6 +250,7 @@ EXPLANATION = (
     "computed key is static only when it is a literal. R18.2: the condition that decides between emitting a default as written and wrapping it "
     "in a factory must involve the prop's inferred types (repaired by 5dc72f5). R18.3: the quoted/unquoted key match has both "
     "directions; mergeDefaults(props, defaults) argument order and import name."
+    ' R18.5: the props builder never takes the list of written defaults by mutable reference (defaults are looked up, not consumed).'
 )
 ASSUMPTIONS = ["Vue's resolvePropValue semantics (function defaults of non-Function props are factories)", "evaluating a factory is not modelled"]
 TRUSTED = ["rustc nightly typed HIR"]
